@@ -43,7 +43,7 @@ const (
 )
 
 func TestMain(m *testing.M) {
-	rec.Rule("cases = zipgen archives (0-20 members; stored/deflated; sizes around 0/1/64 KiB; five descriptor kinds; forced ZIP64 local/central/end records; extra fields; member and archive comments; directory entries; prefix bytes; gaps; permuted central directory) read by zipslicer in random-access and tar-streaming mode and compared with the generator layout, Go archive/zip and Python zipfile; re-serialisation of the untouched directory; rewriting through Mangle/NewFile/MakePatch for 1-3 rounds with read-back by all readers; non-trivial = archive has >= 2 members and at least one layout feature beyond plain stored/deflated members (descriptor, ZIP64 record, extra, comment, prefix, gap, cdperm, dir, zero-length); distinct = distinct archive bytes (sha256) + operation")
+	rec.Rule("cases = zipgen archives (0-20 members; stored/deflated; sizes around 0/1/64 KiB; five descriptor kinds; forced ZIP64 local/central/end records; extra fields; member and archive comments; directory entries; prefix bytes; gaps; permuted central directory) read by zipslicer in random-access and tar-streaming mode and compared with the generator layout, Go archive/zip and Python zipfile; re-serialisation of the untouched directory; rewriting through Mangle/NewFile/MakePatch for 1-3 rounds with read-back by all readers; sparse archives beyond 4 GiB (2-5 members, one or more of 4 GiB + {0,1,16,4096} zero bytes stored or deflated, ZIP64 extras with all three values or only the saturated ones) read, rewritten (one member deleted, one added) and read back, a sample of them through the streaming reader and Python (always non-trivial, distinct = layout); non-trivial = archive has >= 2 members and at least one layout feature beyond plain stored/deflated members (descriptor, ZIP64 record, extra, comment, prefix, gap, cdperm, dir, zero-length); distinct = distinct archive bytes (sha256) + operation")
 	var err error
 	workDir, err = os.MkdirTemp("", "c17-")
 	if err != nil {
